@@ -8,7 +8,9 @@ WT=/var/tmp/verif-mut-$SLOT   # fixed path: ccache hits for every unchanged tran
 git -C /repo worktree remove --force $WT >/dev/null 2>&1 || true; rm -rf $WT
 git -C /repo worktree add -q --detach $WT HEAD
 trap 'git -C /repo worktree remove --force $WT >/dev/null 2>&1; rm -rf $WT' EXIT
-if [ "$PATCH" = "-" ]; then git -C $WT apply -; else git -C $WT apply $PATCH; fi
+if [ "$PATCH" = "-" ]; then cat > $WT/.mut.diff; PATCH=$WT/.mut.diff; fi
+# seeded patches may have been written against a slightly older HEAD (before the probe hooks): fall back to fuzzy application
+git -C $WT apply $PATCH 2>/dev/null || git -C $WT apply -C1 --recount $PATCH 2>/dev/null || (cd $WT && patch -p1 -F3 --no-backup-if-mismatch < $PATCH) || { echo "patch does not apply"; exit 3; }
 git -C $WT diff --stat | tail -1
 export VERIF_REPO=$WT VERIF_BUILD=$WT/_vbuild
 "$@"
